@@ -145,7 +145,7 @@ func c08Eval(t tb, c c08Case) {
 	// key permutations: the generated file must not change
 	if c.Conf != nil && first.exit == 0 {
 		for k := 0; k < c.Perms; k++ {
-			st := cfg.Style{Seed: c.Style.Seed*31 + uint64(k) + 1, PermKeys: true, Flow: k%2 == 0, Quotes: k%3 == 0}
+			st := cfg.Style{Seed: c.Style.Seed*31 + uint64(k) + 1, PermKeys: true, Flow: k%2 == 0, Quotes: k%3 == 0, Blocks: k%2 == 1}
 			text, err := cfg.Emit(*c.Conf, st)
 			if err != nil {
 				col.Exclude("serialiser-self-check")
